@@ -235,6 +235,11 @@ func VerifC04Step() {
 
 	verif.Assert("error-iff-documented", (err != nil) == want.err)
 	if want.err {
+		if stride != nil {
+			// an error while evaluating the branches does not hand the message back: message branching has
+			// consumed it (Walk relies on this to move on to the next message)
+			verif.Assert("consumed-iff-message-branching-also-on-error", (stride.Consumed != nil) == want.consumed)
+		}
 		verif.Reach("error")
 		return
 	}
